@@ -710,8 +710,126 @@ func c11BigFiles(c *C) {
 	c.Nontrivial(fmt.Sprintf("big:%s:%d:%s", f.name, size, unit))
 }
 
+// c11GateLoader: a memory loader in which the first fetch of one name waits until it is let go.
+type c11GateLoader struct {
+	files   map[string]string
+	mu      sync.Mutex
+	gated   string
+	entered chan struct{}
+	release chan struct{}
+}
+
+func (l *c11GateLoader) Abs(base, name string) string { return name }
+func (l *c11GateLoader) Get(p string) (io.Reader, error) {
+	l.mu.Lock()
+	hit := l.gated != "" && l.gated == p
+	if hit {
+		l.gated = ""
+	}
+	l.mu.Unlock()
+	if hit {
+		close(l.entered)
+		<-l.release
+	}
+	s, ok := l.files[p]
+	if !ok {
+		return nil, fmt.Errorf("c11GateLoader: no template %q", p)
+	}
+	return strings.NewReader(s), nil
+}
+
+// c11OverlappingDeepLoads: while one load of a set is fetching the file at the bottom of a 400-900 deep chain of
+// includes / extends, other loads of the same set - the same chain, another deep chain, shallow files - obtain what they
+// name. The depth of a composition is counted per composition.
+func c11OverlappingDeepLoads(c *C) {
+	r := c.R
+	dA, dB := []int{400, 600, 900}[r.Intn(3)], []int{300, 600, 900}[r.Intn(3)]
+	kind := r.Pick([]string{"include", "extends", "ssi parsed", "import"})
+	l := &c11GateLoader{files: map[string]string{"/shallow.tpl": "shallow"}, entered: make(chan struct{}), release: make(chan struct{})}
+	link := func(next string) string {
+		switch kind {
+		case "extends":
+			return `{% extends "` + next + `" %}`
+		case "ssi parsed":
+			return `{% ssi "` + next + `" parsed %}`
+		case "import":
+			return `{% import "` + next + `" m %}{% macro m() export %}{{ m() }}{% endmacro %}`
+		}
+		return `{% include "` + next + `" %}`
+	}
+	bottom := "bottom"
+	if kind == "import" {
+		bottom = `{% macro m() export %}bottom{% endmacro %}`
+	}
+	for _, ch := range []struct {
+		pre string
+		d   int
+	}{{"/a", dA}, {"/b", dB}} {
+		for i := 0; i < ch.d; i++ {
+			l.files[fmt.Sprintf("%s%d.tpl", ch.pre, i)] = link(fmt.Sprintf("%s%d.tpl", ch.pre, i+1))
+		}
+		l.files[fmt.Sprintf("%s%d.tpl", ch.pre, ch.d)] = bottom
+	}
+	l.gated = fmt.Sprintf("/a%d.tpl", dA)
+	set := pongo2.NewSet("c11-deep-overlap", l)
+	type res struct {
+		tpl *pongo2.Template
+		err error
+	}
+	done := make(chan res, 1)
+	go func() {
+		t, e := set.FromFile("/a0.tpl")
+		done <- res{t, e}
+	}()
+	select {
+	case <-l.entered:
+	case rs := <-done:
+		c.Fail("composition-mismatch", D{"kind": kind, "depth": dA, "why": "the first load ended before reaching the bottom of its chain", "error": errStr(rs.err)})
+		return
+	}
+	d := D{"kind": kind, "depth_of_the_load_in_progress": dA, "depth_of_the_second_chain": dB, "why": "one load of the set was waiting for the file at the bottom of its chain while the others ran; alone each of them succeeds"}
+	for _, name := range []string{"/b0.tpl", "/shallow.tpl", "/a0.tpl", fmt.Sprintf("/a%d.tpl", dA/2)} {
+		var t *pongo2.Template
+		var err error
+		if r.Bool() {
+			t, err = set.FromFile(name)
+		} else {
+			t, err = set.FromCache(name)
+		}
+		c.Eval(1)
+		if err != nil || t == nil {
+			d["load_that_failed"], d["error"] = name, errStr(err)
+			close(l.release)
+			<-done
+			c.Fail("composition-mismatch", d)
+			return
+		}
+	}
+	close(l.release)
+	rs := <-done
+	c.Eval(1)
+	if rs.err != nil {
+		d["load_that_failed"], d["error"] = "/a0.tpl (the load that had been waiting)", errStr(rs.err)
+		c.Fail("composition-mismatch", d)
+		return
+	}
+	if kind == "include" || kind == "ssi parsed" || kind == "extends" {
+		if out, xerr := rs.tpl.Execute(nil); xerr != nil || out != "bottom" {
+			d["output"], d["error"] = q(truncStr(out, 100)), errStr(xerr)
+			c.Fail("composition-mismatch", d)
+			return
+		}
+	}
+	c.Cover("overlapping_deep_loads_" + kind)
+	c.Nontrivial(fmt.Sprintf("deepoverlap:%s:%d:%d", kind, dA, dB))
+}
+
 func c11Run(c *C) {
 	r := c.R
+	if c.Idx%1500 == 177 {
+		c11OverlappingDeepLoads(c)
+		return
+	}
 	if c.Idx%1500 == 77 {
 		c11BigFiles(c)
 		return
